@@ -3,9 +3,14 @@
 # owning quick check, in scratch worktrees.  Usage: tools/regress.sh [parallel jobs]   -> out/regress.log
 P=${1:-3}
 cd /verif; mkdir -p out
+# the checks run from a snapshot of /verif taken now, so that work on the harness during the (long) run does not leak into it
+SNAP=/dev/shm/verif_snap; rm -rf $SNAP; mkdir -p $SNAP
+rsync -a --exclude .git --exclude out --exclude seeded --exclude benign --exclude evidence /verif/ $SNAP/
+export VERIF_SNAPSHOT=$SNAP
 ( for d in seeded/C??-m*; do echo "$d $(basename $d | cut -d- -f1)"; done; for d in benign/C??-b?; do echo "$d $(basename $d | cut -d- -f1)"; done ) \
   | xargs -P $P -L 1 sh -c '/venv/bin/python /verif/tools/seed_run_wt.py /verif/$0 $1 2>&1 | grep -E " exit " | cut -c1-160' > out/regress.log 2>&1
 echo "seeded caught by owner: $(grep -c -E "^C..-m[0-9]+ C.. exit 1" out/regress.log) / $(ls -d seeded/C??-m* | wc -l)"
 echo "seeded not caught by owner:"; grep -E "^C..-m[0-9]+ C.. exit [02]" out/regress.log
 echo "benign passing: $(grep -c -E "^C..-b[0-9] C.. exit 0" out/regress.log) / $(ls -d benign/C??-b? | wc -l)"
 echo "benign alarming or failing:"; grep -E "^C..-b[0-9] C.. exit [12]" out/regress.log
+rm -rf $SNAP
